@@ -15,7 +15,7 @@ import (
 
 func init() {
 	Registry["C14"] = Set{
-		Explanation: "Decides structural clauses of remote failure detection: X1 the node-down chain — the goroutine serving a connection reaches unregisterConnection on every exit including its recover path, that function deletes the connection and reaches RouteNodeDown, which drains the relations with CleanupNode and sends one exit (links) / one down message with High priority (monitors) per consumer, every such message carrying ErrNoConnection; X2 incarnation guard vs ownership on raw frames — an identifier the reader rebuilds with its own creation must be guarded by the writer against the peer's creation, one the reader rebuilds with the peer's creation must not be (a wrongly guarded frame is never sent, an unguarded one lets identifiers of an earlier incarnation through); X3 the type switches that fan out node-down/termination cover every static target type ever passed to AddLink/AddMonitor; X4 every wait for a remote result or response is a select with a timer case (requests in flight end within their timeout). Added while probing: X1 the node-down send loops walk the whole consumer lists CleanupNode returned; X2b the request/link/monitor methods of a connection refuse identifiers of another incarnation before sending; X4 a pooled timer (lib.TakeTimer) is re-armed by Reset on every path to the select. X5 every channel type that is the target of a non-blocking send (MessageResult, response) is created buffered, so a reply that arrives before the requester blocks in its wait is kept.",
+		Explanation: "Decides structural clauses of remote failure detection: X1 the node-down chain — the goroutine serving a connection reaches unregisterConnection on every exit including its recover path, that function deletes the connection and reaches RouteNodeDown, which drains the relations with CleanupNode and sends one exit (links) / one down message with High priority (monitors) per consumer, every such message carrying ErrNoConnection; X2 incarnation guard vs ownership on raw frames — an identifier the reader rebuilds with its own creation must be guarded by the writer against the peer's creation, one the reader rebuilds with the peer's creation must not be (a wrongly guarded frame is never sent, an unguarded one lets identifiers of an earlier incarnation through); X3 the type switches that fan out node-down/termination cover every static target type ever passed to AddLink/AddMonitor; X4 every wait for a remote result or response is a select with a timer case (requests in flight end within their timeout). Added while probing: X1 the node-down send loops walk the whole consumer lists CleanupNode returned; X2b the request/link/monitor methods of a connection refuse identifiers of another incarnation before sending; X4 a pooled timer (lib.TakeTimer) is re-armed by Reset on every path to the select. X5 every channel type that is the target of a non-blocking send (MessageResult, response) is created buffered, so a reply that arrives before the requester blocks in its wait is kept. X6 every link of a connection is closed at termination: Terminate sets the terminated flag under the pool lock and closes the whole pool, Join tests the flag and appends inside one critical section of that lock, and the dialer closes a link Join refused.",
 		NotDecided: []string{
 			"timing (that the timeout elapses), TCP-level detection of a dead peer",
 			"restart of a peer under the same name within one second (creation is in seconds)",
@@ -72,6 +72,7 @@ func calleeName(cc *ssa.CallCommon) string {
 }
 
 func runC14(p *load.Program, r *core.Report) {
+	c14PoolTermination(p, r)
 	c14ResultChannels(p, r)
 	c14Chain(p, r)
 	lc, writers, readers, rfn := protoLayouts(p)
@@ -588,6 +589,149 @@ func c14Timers(p *load.Program, r *core.Report) {
 				r.Bad(rule, "C14.X4|"+fname(f)+"|bare-receive", fname(f), p.Pos(in.Pos()), "no unbounded receive on a result channel", "bare receive without timeout")
 			}
 		})
+	}
+}
+
+// c14PoolTermination: X6 — every link of a connection is closed when the connection terminates.
+// Terminate closes the links that are in the pool; a link may be added concurrently (Join). The
+// two are ordered by the pool lock: Terminate sets the terminated flag while it holds the lock,
+// and Join tests the flag and appends to the pool inside one critical section of the same lock
+// (a test made before the lock lets a link slip into the pool after it was emptied: that link stays
+// open, and the peer never learns that this node stopped).
+func c14PoolTermination(p *load.Program, r *core.Report) {
+	rule := "C14.X6 pool-closed-on-termination"
+	r.Floor(rule, 3)
+	isLockOp := func(in ssa.Instruction, name string) bool {
+		cc := callCommon(in)
+		if cc == nil {
+			return false
+		}
+		sf := staticCallee(cc)
+		if sf == nil || sf.Name() != name || sf.Pkg == nil || sf.Pkg.Pkg.Path() != "sync" || len(cc.Args) == 0 {
+			return false
+		}
+		_, path, ok := fieldPath(cc.Args[0])
+		return ok && len(path) > 0 && path[len(path)-1] == "pool_mutex"
+	}
+	// inLock: every path from the entry to `at` passes Lock and no Unlock afterwards
+	inLock := func(f *ssa.Function, at ssa.Instruction) bool {
+		isAt := func(in ssa.Instruction) bool { return in == at }
+		if reaches([]Point{{f.Blocks[0], 0}}, func(in ssa.Instruction) bool { return isLockOp(in, "Lock") }, isAt) != nil {
+			return false
+		}
+		var unlocks []Point
+		eachInstr(f, func(in ssa.Instruction) {
+			if isLockOp(in, "Unlock") {
+				if _, isDefer := in.(*ssa.Defer); !isDefer {
+					unlocks = append(unlocks, after(in))
+				}
+			}
+		})
+		return reaches(unlocks, func(in ssa.Instruction) bool { return isLockOp(in, "Lock") }, isAt) == nil
+	}
+	term := p.Func("net/proto", "connection", "Terminate")
+	join := p.Func("net/proto", "connection", "Join")
+	if term == nil || join == nil {
+		r.Unk(rule, "C14.X6|anchors", "", "", "Terminate and Join found", fmt.Sprintf("Terminate=%v Join=%v", term != nil, join != nil))
+		return
+	}
+	// Terminate: flag stored under the lock; every pool element closed
+	{
+		key := "C14.X6|Terminate"
+		inst := "Terminate sets the terminated flag while it holds the pool lock and closes every link in the pool"
+		var st ssa.Instruction
+		closes := false
+		eachInstr(term, func(in ssa.Instruction) {
+			if s2, ok := in.(*ssa.Store); ok {
+				if _, fl := fieldOwner(s2.Addr); fl == "terminated" {
+					if b, okb := constBool(s2.Val); okb && b {
+						st = in
+					}
+				}
+			}
+			if cc := callCommon(in); cc != nil && cc.IsInvoke() && cc.Method.Name() == "Close" {
+				if ok, _ := loopExitsOnlyAtHeader(in); ok {
+					closes = true
+				}
+			}
+		})
+		switch {
+		case st == nil:
+			r.Bad(rule, key, fname(term), p.Pos(term.Pos()), inst, "the flag is not set")
+		case !inLock(term, st):
+			r.Bad(rule, key, fname(term), p.Pos(st.Pos()), inst, "the flag is set outside the pool lock: a concurrent Join can test it, then add its link to the pool after the pool was closed")
+		case !closes:
+			r.Bad(rule, key, fname(term), p.Pos(term.Pos()), inst, "not every link of the pool is closed")
+		default:
+			r.OK(rule, key, fname(term), p.Pos(st.Pos()), inst, "flag stored inside the critical section; Close in a loop over the pool left only by exhaustion")
+		}
+	}
+	// Join: flag tested and pool extended in one critical section
+	{
+		key := "C14.X6|Join"
+		inst := "Join tests the terminated flag and appends the link to the pool inside one critical section of the pool lock"
+		var test, app ssa.Instruction
+		eachInstr(join, func(in ssa.Instruction) {
+			if ld, ok := in.(*ssa.UnOp); ok && ld.Op == token.MUL {
+				if _, path, okp := fieldPath(ld); okp && len(path) > 0 && path[len(path)-1] == "terminated" && test == nil {
+					_, fls, _ := boolEdges(ld)
+					if len(fls) > 0 {
+						test = in
+					}
+				}
+			}
+			if s2, ok := in.(*ssa.Store); ok {
+				if _, fl := fieldOwner(s2.Addr); fl == "pool" {
+					app = in
+				}
+			}
+		})
+		switch {
+		case test == nil || app == nil:
+			r.Bad(rule, key, fname(join), p.Pos(join.Pos()), inst, fmt.Sprintf("flag test found: %v, pool append found: %v", test != nil, app != nil))
+		case !inLock(join, test) || !inLock(join, app):
+			r.Bad(rule, key, fname(join), p.Pos(test.Pos()), inst, "the flag is tested outside the pool lock (or the pool is extended outside it): the link can be added after Terminate has closed the pool and stays open")
+		default:
+			// same critical section: no Unlock on any path from the test to the append
+			if reaches([]Point{after(test)}, func(in ssa.Instruction) bool { return in == app }, func(in ssa.Instruction) bool { return isLockOp(in, "Unlock") && instrReachable(in, app) }) != nil {
+				r.Bad(rule, key, fname(join), p.Pos(test.Pos()), inst, "the lock is released between the test and the append")
+			} else {
+				r.OK(rule, key, fname(join), p.Pos(test.Pos()), inst, "test and append inside one critical section")
+			}
+		}
+	}
+	// the dialer closes a link that was refused by Join
+	{
+		key := "C14.X6|Serve|refused-link-closed"
+		inst := "a freshly dialled link that Join refuses is closed by the dialer"
+		serve := p.Func("net/proto", "enp", "Serve")
+		if serve == nil {
+			r.Unk(rule, key, "", "", inst, "(*enp).Serve not found")
+		} else {
+			ok := false
+			eachInstr(serve, func(in ssa.Instruction) {
+				c, isC := in.(*ssa.Call)
+				if !isC || !callsNamed(in, "Join") {
+					return
+				}
+				_, nonNil, _ := nilEdges(c)
+				var st []Point
+				for _, e := range nonNil {
+					st = append(st, Point{e.To(), 0})
+				}
+				if len(st) > 0 && len(walkAvoid(st, nil, func(i2 ssa.Instruction) bool {
+					cc := callCommon(i2)
+					return cc != nil && cc.IsInvoke() && cc.Method.Name() == "Close"
+				})) > 0 {
+					ok = true
+				}
+			})
+			if ok {
+				r.OK(rule, key, fname(serve), p.Pos(serve.Pos()), inst, "Close on the error edge of Join")
+			} else {
+				r.Bad(rule, key, fname(serve), p.Pos(serve.Pos()), inst, "the refused link is left open")
+			}
+		}
 	}
 }
 
